@@ -515,6 +515,7 @@ class Interp:
 
     @staticmethod
     def type_size(t):
+        t = (t or '').replace('const ', '').replace('volatile ', '').strip()
         return {'unsigned char': 1, 'signed char': 1, 'char': 1, 'bool': 1, 'unsigned short': 2, 'short': 2, 'unsigned int': 4,
                 'int': 4, 'unsigned long': 8, 'long': 8, 'unsigned long long': 8, 'long long': 8}.get(t)
 
@@ -606,6 +607,11 @@ class Interp:
             capdesc = 'local buffer %s.size() = %r' % (it.extra.get('name'), cap)
         elif it.target_size is not None:
             ok = n.is_const() and n.c <= it.target_size
+            if not ok and len(n.t) == 1 and n.c == 0:
+                # min(x, K) with K <= sizeof
+                (t_, k_), = n.t.items()
+                if k_ == 1 and t_[0] == 'op' and t_[1] == 'min' and any(isinstance(a_, Lin) and a_.is_const() and 0 <= a_.c <= it.target_size for a_ in t_[2:]):
+                    ok = True
             capdesc = 'sizeof = %d' % it.target_size
         else:
             ok = False
